@@ -10,6 +10,7 @@ import (
 	"fmt"
 	"io"
 	"os"
+	"path/filepath"
 	"sort"
 	"strings"
 	"sync"
@@ -118,6 +119,10 @@ func runSigRepo() int {
 			if it.Kind == "subjSize" && (variant == "ociReopen" || variant == "ociFresh") {
 				variant = "oci"
 			}
+			// a blob can vanish from a store on disk only
+			if it.Kind == "sigBlobGone" && variant == "memory" {
+				variant = "oci"
+			}
 		}
 		ociRepo := func() registry.Repository {
 			r, err := registry.NewOCIRepository(dir0(), registry.RepositoryOptions{})
@@ -188,6 +193,14 @@ func runSigRepo() int {
 				case "sig":
 					rec.mt = mediaTypeOf(it.MT)
 					_, rec.manifest, perr = repo.PushSignature(ctx, rec.mt, blob, subj, ann)
+				case "sigBlobGone":
+					rec.mt = mtJWS
+					var bd ocispec.Descriptor
+					bd, rec.manifest, perr = repo.PushSignature(ctx, rec.mt, blob, subj, ann)
+					if perr == nil {
+						// ... and the envelope blob vanishes from the layout (somebody cleaned up too eagerly)
+						must(os.Remove(filepath.Join(dir, "blobs", bd.Digest.Algorithm().String(), bd.Digest.Encoded())))
+					}
 				case "sigAtCap":
 					// annotations padded so that the signature manifest is exactly 4 MiB (measured with a trial push elsewhere)
 					rec.mt = mtJWS
@@ -211,7 +224,7 @@ func runSigRepo() int {
 			}
 			alt := subj
 			switch it.Kind {
-			case "sig", "sigAtCap":
+			case "sig", "sigAtCap", "sigBlobGone":
 			case "legacySig", "legacyForeign":
 				at := artifactTypeNotation
 				if it.Kind == "legacyForeign" {
